@@ -181,5 +181,65 @@ func Extract() *fx.Group {
 	} else {
 		g.Missing("rootLocation_expr")
 	}
+	// the SL encoder: bytes of an SL entry that are not component records (`headerSize := 4 + 1 + 2`), and
+	// how the room for component records is derived from it; the copy chunk of copyFileData
+	rr := fx.Parse("filesystem/iso9660/rockridge.go")
+	slb := fx.FindFunc(rr, "rockRidgeSymlink", "Bytes")
+	if e := fx.AssignRHS(slb, "headerSize"); e != nil {
+		v, ok := sumLits(e)
+		put("slHeaderSize", v, ok)
+	} else {
+		g.Missing("slHeaderSize")
+	}
+	if e := fx.AssignRHS(slb, "maxComponentSize"); e != nil {
+		g.Str("slMaxComponent_expr", fx.Src(e))
+	} else {
+		g.Missing("slMaxComponent_expr")
+	}
+	v, ok = makeLen(fx.FindFunc(fin, "", "copyFileData"))
+	put("copyChunkSize", v, ok)
 	return g
+}
+
+// sumLits evaluates an expression made of integer literals, + and parentheses.
+func sumLits(e ast.Expr) (int64, bool) {
+	switch x := e.(type) {
+	case *ast.BasicLit:
+		v, err := strconv.ParseInt(x.Value, 0, 64)
+		return v, err == nil
+	case *ast.ParenExpr:
+		return sumLits(x.X)
+	case *ast.BinaryExpr:
+		if x.Op != token.ADD {
+			return 0, false
+		}
+		a, ok1 := sumLits(x.X)
+		b, ok2 := sumLits(x.Y)
+		return a + b, ok1 && ok2
+	}
+	return 0, false
+}
+
+// makeLen finds the first `make([]byte, N)` with a literal N in fn.
+func makeLen(fn *ast.FuncDecl) (int64, bool) {
+	var out int64
+	found := false
+	if fn == nil {
+		return 0, false
+	}
+	ast.Inspect(fn, func(n ast.Node) bool {
+		ce, ok := n.(*ast.CallExpr)
+		if !ok || found || len(ce.Args) != 2 {
+			return true
+		}
+		if id, ok := ce.Fun.(*ast.Ident); !ok || id.Name != "make" {
+			return true
+		}
+		if bl, ok := ce.Args[1].(*ast.BasicLit); ok {
+			out, _ = strconv.ParseInt(bl.Value, 0, 64)
+			found = true
+		}
+		return true
+	})
+	return out, found
 }
